@@ -47,10 +47,21 @@ def jobs(tier, seed):
     from .C02 import e2_jobs
     js += e2_jobs("C11", ["contracts.C11_e2:LossMinimizationWiring", "contracts.C11_e2:LossValueAndGradient", "contracts.C11_e2:EntropyLossValueAndGradient",
                           "contracts.C11_e2:ProjectionInstalled"], tier, seed)
+    # bounded stand-in (native floats) for where the optimisation ends
+    parts = 3 if tier == "quick" else 12
+    for part in range(parts):
+        js.append(Job(f"C11/estimator-outcomes (instances)/{part}", "contracts.C11:native_estimators",
+                      dict(prop="C11", tier=tier, seed=seed, part=part, parts=parts), timeout_s=1800.0))
     return js
+
+
+def native_estimators(prop, **kw):
+    """the native estimator stand-in decides clauses of C10 (projected linear) and C11 (loss minimisation): each check reports its own"""
+    from . import C11_native as C
+    return [r for r in C.job_estimators(**kw) if r.prop == prop]
 
 
 CLAIM = {'engine': 'E1-pyvc', 'level': 'other',
  'text': 'PARTIAL. The last sentence of C11 is proved as loop invariants of the unmodified ProjectedGradientDescentBacktracking.optimize (VCs generated from its AST; loss, gradient and projection are uninterpreted functions constrained only by their assumed contracts): for every loss function, every closed convex set C with nearest-point projection, every start point in C, every mu > 0 (given or default), gamma > 0, every stopping mode and every iteration count, each iterate lies in C, loss(x_{k+1}) <= loss(x_k) <= loss(x_0), the step length stays in (0,1], and the returned value is the last iterate. _is_doing_for_alpha is proved to be exactly the Armijo test and used through that contract. The estimator wiring (every dataset of a sequence and every re-used object sees its own loss, constraint and algorithm) is proved with a probe optimiser, and the callee contracts the claim rests on (loss value / gradient of C12, installed projection of C10) are re-checked here. The two real-arithmetic lemmas used (descent direction from the variational inequality; sign of gamma*alpha*<y,g>) are discharged separately.',
- 'note': 'NOT decided: optimality of the returned point over the physical set, agreement with the CVXPY/SCS estimator, termination of either loop (no contract over one call states them; SCS is external). Vector length 1..3 (1..4 thorough) componentwise; floats as reals. Refuted obligations are replayed by a native search over concrete convex quadratic problems with box constraints on the real class.',
+ 'note': 'NOT decided by proof: optimality of the returned point over the physical set, agreement with the CVXPY/SCS estimator, termination of either loop (no contract over one call states them; SCS is external). Bounded stand-in for those clauses (never counted as proved): on seeded one-qubit state / POVM / process tomography instances (interior and boundary true objects, exact data, 100 and 10000 shots, both parametrisations, squared-error and relative-entropy losses) the real estimator must return a physical estimate whose loss is not larger than at the true object, at the projected linear estimate, at physical points near the estimate and at the CVXPY / SCS solution of the same problem, and must return the true object from exact data. Vector length 1..3 (1..4 thorough) componentwise; floats as reals. Refuted obligations are replayed by a native search over concrete convex quadratic problems with box constraints on the real class.',
  'technique': 'contract-based deductive verification (AST->VC, loop invariants, uninterpreted callee contracts, z3/cvc5)'}
